@@ -240,7 +240,11 @@ func c18Key1(id, account string, since, until int64, cs [][][2]string) string {
 		}
 		alts[i] = vh.CoqList(pairs)
 	}
-	return "(mkKey " + vh.CoqBytes(id) + " " + vh.CoqBytes(account) + " " + vh.CoqZ(since) + " " + u + " " + vh.CoqList(alts) + ")"
+	idc := vh.CoqBytes(id)
+	if id == "\x00k0" {
+		idc = "k0"
+	}
+	return "(mkKey " + idc + " " + vh.CoqBytes(account) + " " + vh.CoqZ(since) + " " + u + " " + vh.CoqList(alts) + ")"
 }
 
 func c18Exec(in c18In) vh.Out {
@@ -308,6 +312,22 @@ func c18Exec(in c18In) vh.Out {
 		db.SetEarliestTime(time.Unix(in.Clock, 0))
 	}
 
+	// the genuine key id, content, decoded signature and its core are bound once per case and shared (let-bound names)
+	kid := c18Key.PublicKey().ID()
+	core0 := c18Core(sig0)
+	share := func(x string) string {
+		switch x {
+		case string(content0):
+			return "c0"
+		case sig0:
+			return "s0"
+		case core0:
+			return "r0"
+		case kid:
+			return "k0"
+		}
+		return vh.CoqBytes(x)
+	}
 	accepted, added := false, false
 	coqA := "(mkA false [] [] None [] [] [] [])"
 	if derr == nil {
@@ -335,15 +355,14 @@ func c18Exec(in c18In) vh.Out {
 		for _, k := range names {
 			hs = append(hs, "("+vh.CoqBytes(k)+", "+vh.CoqBytes(a.Headers()[k].(string))+")")
 		}
-		coqA = "(mkA " + vh.CoqBool(a.SupportedFormat()) + " " + vh.CoqBytes(a.AuthorityID()) + " " + vh.CoqBytes(a.SignKeyID()) + " " + ts + " " +
-			vh.CoqList(hs) + " " + vh.CoqBytes(string(content)) + " " + vh.CoqBytes(c18Decoded(bytes.TrimSpace(encSig))) + " " +
-			vh.CoqBytes(c18Core(c18Decoded(bytes.TrimSpace(encSig)))) + ")"
+		dec := c18Decoded(bytes.TrimSpace(encSig))
+		coqA = "(mkA " + vh.CoqBool(a.SupportedFormat()) + " " + vh.CoqBytes(a.AuthorityID()) + " " + share(a.SignKeyID()) + " " + ts + " " +
+			vh.CoqList(hs) + " " + share(string(content)) + " " + share(dec) + " " + share(c18Core(dec)) + ")"
 	}
 
-	kid := c18Key.PublicKey().ID()
 	trustedKeys := []string{c18Key1(c18Root.PublicKey().ID(), "canonical", 946684800, 0, nil)}
 	storedKeys := []string{}
-	k := c18Key1(kid, in.KeyAccount, in.Since, in.Until, in.Constraints)
+	k := c18Key1("\x00k0", in.KeyAccount, in.Since, in.Until, in.Constraints)
 	switch in.KeyWhere {
 	case "trusted":
 		trustedKeys = append(trustedKeys, k)
@@ -354,8 +373,9 @@ func c18Exec(in c18In) vh.Out {
 	if in.ClockMode != "now" {
 		clock = "(CEarliest " + vh.CoqZ(in.Clock) + ")"
 	}
-	coq := "(CCheck " + vh.CoqList(trustedKeys) + " " + vh.CoqList(storedKeys) + " " + clock + " " + vh.CoqBool(derr == nil) + " " + coqA + " (" +
-		vh.CoqBytes(kid) + ", " + vh.CoqBytes(string(content0)) + ", " + vh.CoqBytes(c18Core(sig0)) + ") " + vh.CoqBytes(sig0) + " " + vh.CoqBool(accepted) + " " + vh.CoqBool(added) + ")"
+	coq := "(let k0 := " + vh.CoqBytes(kid) + " in let c0 := " + vh.CoqBytes(string(content0)) + " in let s0 := " + vh.CoqBytes(sig0) +
+		" in let r0 := " + vh.CoqBytes(core0) + " in CCheck " + vh.CoqList(trustedKeys) + " " + vh.CoqList(storedKeys) + " " + clock + " " + vh.CoqBool(derr == nil) + " " + coqA + " (" +
+		"k0, c0, r0) s0 " + vh.CoqBool(accepted) + " " + vh.CoqBool(added) + ")"
 
 	tags := []string{"key:" + in.KeyWhere, "mut:" + in.Mut.Kind, "clock:" + in.ClockMode, "type:" + in.Type}
 	if in.KeyAccount != c18Authority {
